@@ -748,6 +748,16 @@ def bounded_text_roundtrip(reg, tier, seed):
             m = _Msg("ImprovedTerseObjectUpdate", _Blk("RegionData", RegionHandle=5, TimeDilation=65535),
                      _Blk("ObjectData", Data=pl, TextureEntry=b""), packet_id=9, direction=_Dir.IN)
             run_case(m, f"pinned-terse-{'avatar' if avatar else 'prim'}-{rot}", pinned=True)
+        # pinned: a group-notice instant message whose binary bucket (a sub-format with a NUL-terminated name in it) carries a name
+        # that is valid UTF-8, Latin-1, or no text at all - the text shown falls back to the exact bytes when it has to
+        import uuid as _uuid
+        for nm_ in (b"notes", b"caf\xc3\xa9 notes", b"caf\xe9 notes", b"\xff\xfe\x80 raw", b""):
+            bucket = b"\x01\x07" + _uuid.UUID(int=0xabcdef).bytes + nm_ + b"\x00"
+            m = _Msg("ImprovedInstantMessage", _Blk("AgentData", AgentID=_uuid.UUID(int=1), SessionID=_uuid.UUID(int=2)),
+                     _Blk("MessageBlock", FromGroup=0, ToAgentID=_uuid.UUID(int=3), ParentEstateID=1, RegionID=_uuid.UUID(int=4), Position=(1.0, 2.0, 3.0),
+                          Offline=0, Dialog=32, ID=_uuid.UUID(int=5), Timestamp=0, FromAgentName=b"Some Resident\x00", Message=b"subject|body\x00",
+                          BinaryBucket=bucket), packet_id=10, direction=_Dir.IN)
+            run_case(m, f"pinned-group-notice-{nm_!r}", pinned=True)
         for t in tmpls:
             has_var = any(b.block_type == MsgBlockType.MBT_VARIABLE for b in t.blocks)
             variants = [("rand", False), ("one", True)] + ([("min", False)] if has_var else [])
